@@ -1,6 +1,6 @@
 ------------------------------ MODULE C18Judge ------------------------------
 (* Judges the records harness/c18_reqparse.cpp wrote from the real code against ReqParse.      *)
-(* One family of records per run (VF_FAMILY): tcp | httptok | httpchar | tpl.                  *)
+(* One family of records per run (VF_FAMILY): tcp | httptok | httprand | httpchar | tpl.       *)
 EXTENDS ReqParse, TLC, Json, IOUtils
 
 Thorough == IOEnv.VF_TIER = "thorough"
@@ -13,7 +13,7 @@ Init == i = 0
 Next == \/ /\ i = 0 /\ i' \in {1 + K * s : s \in 0..((N - 1) \div K)}
         \/ /\ i > 0 /\ i % K # 0 /\ i < N /\ i' = i + 1
 
-TokN == IF Thorough THEN 5 ELSE 4
+TokN == 4
 CharN == IF Thorough THEN 6 ELSE 5
 TplN == 5
 
@@ -62,7 +62,8 @@ Judge == i = 0 \/ (Ok(Recs[i]) /\ InOrder(i)) \/ ~PrintT(<<"VF", "BAD", i, IF In
 
 (* domain completeness: what was judged is the whole domain the specification defines *)
 ASSUME Family = "tcp" => {Recs[k].args : k \in 1..N} = TcpLists(Thorough)
-ASSUME Family = "httptok" => {Recs[k].u : k \in 1..N} = TokenUris(TokN, ~Thorough)
+ASSUME Family = "httptok" => {Recs[k].u : k \in 1..N} = TokenUris(TokN, TRUE)
+ASSUME Family = "httprand" => \A k \in 1..N : Recs[k].u # <<>> /\ Recs[k].u[1] = SL         \* seeded random longer URIs: a sample
 ASSUME Family = "httpchar" => N = UriCount(CharN) /\ ToSet(UriSeq) = UriAlpha       \* with InOrder: exactly UrisUpTo(CharN)
 ASSUME Family = "tpl" => {<<Recs[k].parts, Recs[k].text>> : k \in 1..N} = {<<t, Render(t, b)>> : t \in Templates(TplN), b \in BOOLEAN}
 ASSUME PrintT(<<"VF", "DOMAIN", Family, N>>)
